@@ -79,6 +79,12 @@ def _corpus_programs():
         ps.append({"op": "mutation", "fields": [F(0, "C", ["list", pos == 1, "abs", items], nn=(pos == 2)), F(3, "C", I(3))]})
     ps.append({"op": "mutation", "fields": [F(0, "S", ["obj", [F(1, "D", ["list", True, "abs", [["obj", [F(2, "C", I(2))]], ["bad"]]])]]),
                                             F(3, "S", I(3)), F(4, "C", ["list", False, "abs", [["bad"]]])]})
+    # a list resolved by a generator / lazy iterator that raises a ResolverError after k = 0, 1, 2 items,
+    # the yielded items having deferred sub-fields (witness of the defect repaired by /repo 75abc69)
+    for k in (0, 1, 2):
+        items = [["obj", [F(1, "C", I(1)), F(2, "C", ["err", 3], sh="i")]], ["obj", [F(1, "C", I(5), lv=1), F(2, "C", I(6))]]]
+        items.insert(k, ["raise", k % 2])
+        ps.append({"op": "mutation", "fields": [F(0, "C" if k else "S", ["list", k == 1, "obj", items], nn=(k == 2)), F(3, "C", I(3))]})
     return ps
 
 
@@ -117,7 +123,7 @@ def generate(rng, tier):
     quick = tier == "quick"
     SHARD = 8 if quick else 8
     limit, samples = (720, 30) if quick else (5040, 200)
-    cases = []
+    cases = [c for c in c08.nested_cases(rng, quick) if c["nested"]["op"] == "mutation"]
     for i, p in enumerate(c08.eager_programs(quick, op="mutation")):
         if i % (3 if quick else 2) == 0:
             p["layout"] = LAYOUT_CYCLE[i % 4]
@@ -159,6 +165,8 @@ def show_expr(case, obs):
 
 
 def nontrivial(case, obs):
+    if "nested" in case:
+        return True
     return (case["config"] in ("aio", "aiot", "pool", "poole", "poolh", "prom", "threads") and case["prog"]["op"] == "mutation"
             and len(case["prog"]["fields"]) >= 2)
 
@@ -183,6 +191,8 @@ def _serial_violation(prog, events):
 
 
 def classify(case, obs):
+    if "nested" in case:
+        return "nested list (model-free)", None
     prog = case["prog"]
     for r in obs["runs"]:
         if prog["op"] == "mutation" and _serial_violation(prog, r.get("events", [])):
@@ -199,6 +209,8 @@ def classify(case, obs):
 
 
 def direct_checks(case, obs):
+    if "nested" in case:
+        return c08.nested_checks(case, obs, _serial_violation)
     out = c08.direct_checks(case, obs)
     prog = case["prog"]
     if prog["op"] == "mutation":
@@ -214,6 +226,8 @@ shrink = c08.shrink
 
 def extra_evidence(cases, obss):
     ev = c08.extra_evidence(cases, obss)
+    pairs = [(c, o) for c, o in zip(cases, obss) if "nested" not in c]
+    cases, obss = [c for c, _o in pairs], [o for _c, o in pairs]
     d = ev["distribution"]
     d["mutations_by_top_level_fields"] = {}
     for c in cases:
